@@ -267,6 +267,30 @@ def attemptShapes (c : SCfg) (ls : List Label) : Option String :=
     !(shapeOk nbg (nstepsOf a.1) ses) || !sameCounter)
   bad.map (fun a => s!"attempt {a.2} of scenario {a.1}: events are not the canonical sequence")
 
+/-- C01 end to end: the REAL runner's events through the REAL `Summarize`: the run is reported failed iff
+    a parser error was delivered or some attempt failed finally (END with failed ∧ ¬retried) -/
+def verdictMon (ls : List Label) : Option String :=
+  let finalFailure := ls.any (fun l => match l with | .endA _ failed retried _ => failed && !retried | _ => false)
+  let parseErr := ls.contains Label.pErr
+  match ls.findSome? (fun l => match l with | .verdict b _ _ _ => some b | _ => none) with
+  | none => none      -- the run did not end (other monitors report that)
+  | some b =>
+    if b == (finalFailure || parseErr) then none
+    else some s!"verdict {b} but final failure = {finalFailure}, parser error = {parseErr}"
+
+/-- cause pattern of F-C01: reported failed with no final failure and no parser error, no failed step
+    counted, and every Hook-Failed event lies in an attempt with a retry left -/
+def knownC01 (ls : List Label) (r : Option String) : Option String :=
+  match r with
+  | none => none
+  | some _ =>
+    let evs := txEvents ls
+    let hookFails := evs.filter (fun e => e.isHookFailed)
+    let allRetried := hookFails.all (fun e => match e with | .scen _ (some r) _ => decide (r.left > 0) | _ => false)
+    match ls.findSome? (fun l => match l with | .verdict b fs pe _ => some (b, fs, pe) | _ => none) with
+    | some (true, 0, 0) => if !hookFails.isEmpty && allRetried then some "F-C01" else none
+    | _ => none
+
 def showMon (id : String) (known : Option String) (r : Option String) : String :=
   match r with
   | none => "ok"
